@@ -43,7 +43,8 @@ elif [ "$cmd" = run ]; then
   else
     git -C /repo diff --quiet || { echo "/repo has uncommitted changes"; exit 2; }
     git -C /repo apply "$ROOT/seeded/$id/patch.diff" || exit 2
-    "$ROOT/bin/check" "$prop" "$tier" > "$ROOT/.work/seeded-$id-$prop.log" 2>&1; rc=$?
+    mkdir -p "$ROOT/.work/alt/$id"      # evidence/ and replays/ of this run go to a side directory: /verif/evidence describes /repo itself
+    VERIF_OUT_DIR="$ROOT/.work/alt/$id" "$ROOT/bin/check" "$prop" "$tier" > "$ROOT/.work/seeded-$id-$prop.log" 2>&1; rc=$?
     git -C /repo checkout -- .
   fi
   tail -4 "$ROOT/.work/seeded-$id-$prop.log"
